@@ -49,8 +49,10 @@ def k1_applies(strat, x, y, n, a, kw, k, bad_idx, ys):
         return _k1_by_observed_windows(strat, x, y, n, kw, k, bad_idx, ys)
     seg = RM.segments(strat, AL[k + 1], AR[k + 1], n, kw.get("beta", 0.5))
     scale = max(abs(float(v)) for v in y) or 1.0
+    # "equals the documented blend": t**e with a small exponent amplifies the rounding of t (abscissae far from the
+    # origin), so the comparison is made at 1e-6 of the data magnitude - a different formula would be off by O(1)
     for i in range(n):
-        if abs(float(ys[k * n + i]) - mod[k * n + i]) > 1e-9 * scale:
+        if abs(float(ys[k * n + i]) - mod[k * n + i]) > 1e-6 * scale:
             return False
     return all(seg[i % n] == "blend" or seg[(i + 1) % n] == "blend" or seg[(i - 1) % n] == "blend"
                for i in bad_idx if i < n)
@@ -80,7 +82,7 @@ def _k1_by_observed_windows(strat, x, y, n, kw, k, bad_idx, ys):
         for i in range(L):
             v = RM.lin(G.P(k, i), (G.P(k, 0), z[0]), (G.P(k, L), yk)) if i < bl else \
                 RM.blend_up(G.P(k, i), (G.P(k, bl), zb), (G.P(k, L), yk), e)
-            ok = ok and abs(v - z[i]) <= 1e-9 * scale
+            ok = ok and abs(v - z[i]) <= 1e-6 * scale
     if Rw:
         br = int(beta * Rw)
         if k < m - 2:
@@ -91,7 +93,7 @@ def _k1_by_observed_windows(strat, x, y, n, kw, k, bad_idx, ys):
         for i in range(n - Rw + 1, n):
             v = RM.lin(G.P(k, i), (G.P(k, n - Rw), yk), (G.P(k, n), zr)) if i >= n - br else \
                 RM.blend_down(G.P(k, i), (G.P(k, n - Rw), yk), (G.P(k, n - br), zb), e)
-            ok = ok and abs(v - z[i]) <= 1e-9 * scale
+            ok = ok and abs(v - z[i]) <= 1e-6 * scale
     return ok
 
 
